@@ -31,7 +31,7 @@ def cases(tier, seed):
     def add(kind, **prm):
         s = case_seed('C08', seed, kind, sorted(prm.items()))
         r = np.random.default_rng(s)
-        prm.setdefault('P', int(r.integers(1, 4)))
+        prm.setdefault('P', int(r.integers(1, 5)))
         out.append({'kind': kind, 'seed': s, 'params': prm})
     for rep in range(reps):
         for D in Ds:
@@ -84,6 +84,10 @@ def _series(rng, D, P, M, N, base, scale=0.5):
     x = scale * rng.normal(size=(D, P, M, N))
     for p in range(P):
         x[0, p] = base()
+    if P >= 3 and rng.random() < 0.4:
+        x[0, P - 1] = x[0, 0]              # the same base point again after a different one (X, Y, X): only the higher coefficients differ
+    elif P >= 2 and rng.random() < 0.2:
+        x[0, 1] = x[0, 0]
     return x
 
 
